@@ -146,6 +146,7 @@ type worldEvent struct {
 	Label string        `json:"label"`
 	Args  []interface{} `json:"args"`
 	Chain bool          `json:"chain"`
+	Base  bool          `json:"base"` // this world becomes the base of the behaviour's long-distance diffs
 	World *world.World  `json:"world"`
 	Conc  string        `json:"conc"`
 }
@@ -199,6 +200,14 @@ func cmdWorlds(args []string) int {
 			}
 			w := world.Gen(rand.New(rand.NewSource(r.Int63())), o)
 			cases = append(cases, Case{ID: len(cases), Label: "gen:" + p, World: w})
+			if strings.Contains(","+*ops+",", ",diff,") && len(w.Workloads) > 0 {
+				// a second (and sometimes third) world a few random edits away, chained to the first: diffs between two
+				// sides that differ by several edits at once (same universe, same concretisation)
+				for k := 1 + r.Intn(2); k > 0; k-- {
+					w = world.Mutate(w, rand.New(rand.NewSource(r.Int63())), o)
+					cases = append(cases, Case{ID: len(cases), Label: "gen-edits", Chain: true, World: w})
+				}
+			}
 		}
 	}
 	opset := map[string]bool{}
@@ -253,6 +262,8 @@ func cmdWorlds(args []string) int {
 type groupState struct {
 	conc    *world.Conc
 	prevDir string
+	baseDir string // the base world of the behaviour, kept for diffs over several edits
+	baseN   int
 	prev    *world.World
 	dir     string
 	n       int
@@ -272,7 +283,7 @@ func runCase(em *emitter, dir string, c Case, seed int64, ops map[string]bool, b
 				gs.conc = rc
 			}
 		}
-		gs.prevDir, gs.prev = "", nil
+		gs.prevDir, gs.prev, gs.baseDir = "", nil, ""
 	}
 	conc := gs.conc
 	w = conc.Rename(w)
@@ -281,14 +292,24 @@ func runCase(em *emitter, dir string, c Case, seed int64, ops map[string]bool, b
 	if c.Args == nil {
 		c.Args = []interface{}{}
 	}
-	em.emit(worldEvent{Ev: "World", Seed: cseed, ID: c.ID, Label: c.Label, Args: c.Args, Chain: c.Chain, World: w, Conc: string(cb)})
 	gs.n++
+	// the base of long-distance diffs: the first world of the behaviour, replaced by the sixth (by then workloads and a few policies exist)
+	isBase := ops["diff"] && (!c.Chain || gs.n == 6)
+	em.emit(worldEvent{Ev: "World", Seed: cseed, ID: c.ID, Label: c.Label, Args: c.Args, Chain: c.Chain, Base: isBase, World: w, Conc: string(cb)})
 	wdir := filepath.Join(dir, fmt.Sprintf("w%d", gs.n%2))
 	os.RemoveAll(wdir)
 	if err := conc.WriteWorld(wdir, w, cseed); err != nil {
 		panic(err)
 	}
 	gs.dir = wdir
+	if isBase {
+		gs.baseN = gs.n
+		gs.baseDir = filepath.Join(dir, "wbase")
+		os.RemoveAll(gs.baseDir)
+		if err := conc.WriteWorld(gs.baseDir, w, cseed); err != nil {
+			panic(err)
+		}
+	}
 	if ops["list"] {
 		obs, _, _ := run.List(wdir, w, conc, run.ListOpts{})
 		em.emit(listEvent{Ev: "List", Obs: obs})
